@@ -1,4 +1,5 @@
 import Nstd.Path.FsCreate
+import Nstd.Path.FsFail
 /-
   Property C19, file-system part: theorems about the algorithms of File.cpp / Directory.cpp
   (Nstd/Path/FsLib.lean) over the ASSUMED POSIX semantics of Nstd/Path/Fs.lean, for all worlds
@@ -50,7 +51,28 @@ theorem create_only_adds_directories (fs : Fs) (dir : Bytes) (fault : Option Nat
     rw [h] at this
     exact this
 
+/-- Failed operations report failure without leaving new files behind: whenever File::open,
+    File::rename or File::copy answers "failed", every path that exists afterwards existed before
+    (for every world and all path strings).  For copy the one exception is spelled out: an injected
+    transfer fault while the destination's last component is a symbolic link.  File::unlink and
+    Directory::unlink never add anything, whatever they answer. -/
+theorem failed_op_leaves_no_new_file (fs : Fs) :
+    (∀ path flags, (fileOpen fs path flags).2 = none → NoNew fs (fileOpen fs path flags).1) ∧
+    (∀ frm to fie, (fileRename fs frm to fie).2 = false → NoNew fs (fileRename fs frm to fie).1) ∧
+    (∀ src dst fie fault, (fault = .none ∨ ∀ p t, resolve fs dst false ≠ .found p (.link t)) →
+        (fileCopy fs src dst fie fault).2.1 = false → NoNew fs (fileCopy fs src dst fie fault).1) ∧
+    (∀ path, NoNew fs (fileUnlink fs path).1) ∧
+    (∀ dir recursive, NoNew fs (dirUnlinkTop fs dir recursive).1) :=
+  ⟨fun p f h => fileOpen_failed_noNew fs p f h,
+   fun a b f h => fileRename_failed_noNew fs a b f h,
+   fun a b f ft hl h => fileCopy_failed_noNew fs a b f ft hl h,
+   fun p => fileUnlink_noNew fs p,
+   fun d r => dirUnlink_noNew _ r fs d⟩
+
 /-! non-vacuity -/
+example : (fileRename ⟨[([[115]], .dir)]⟩ [122] [110] true).2 = false := by decide
+example : (fileCopy ⟨[([[115]], .dir), ([[115], [102]], .file [1, 2])]⟩ [102] [103] true .half).2.1 = false := by decide
+example : (fileCopy ⟨[([[115]], .dir), ([[115], [102]], .file [1, 2])]⟩ [102] [103] true .none).2.1 = true := by decide
 example : (dirCreateTop ⟨[([[115]], .dir)]⟩ [97, 47, 98] none).2.1 = true := by decide
 example : (dirCreateTop ⟨[([[115]], .dir), ([[115], [97]], .file [1])]⟩ [97] none).2.1 = false := by decide
 example : Ancestor [97] [97, 47, 98] := Ancestor.parent (Ancestor.self _) (by decide : splitLast isSep [97, 47, 98] = some ([97], 47, [98])) (by decide)
